@@ -82,6 +82,8 @@ pub fn blocks(thorough: bool) -> Vec<Block> {
         b.push(Block::new(Universe::new("U_adv(A_gcm)", A_GCM, 2, 2, false), vec![Cfg::new(0), Cfg::new(R), Cfg::new(X)], "{}, r, x"));
         b.push(Block::new(u_kind_pairs(2, 2, false), vec![Cfg::new(0), Cfg::new(X), Cfg::new(R), Cfg::new(I), Cfg::new(E | X | NE)], "{}, x, r, i, e+x+ne"));
         b.push(Block::new(u_runs(), k2.clone(), "Lambda<=2 (no u,c)"));
+        b.push(Block::new(u_many(40), vec![Cfg::new(0), Cfg::new(R), Cfg::new(D), Cfg::new(W | R), Cfg::new(NA | NE), Cfg::new(I | X)], "{}, r, d, w+r, na+ne, i+x"));
+        b.push(Block::new(u_kind_triples(), vec![Cfg::new(0), Cfg::new(X), Cfg::new(R), Cfg::new(E | X)], "{}, x, r, e+x"));
         b.push(Block::new(u_long_rep(30), vec![Cfg::new(R), Cfg::new(R | NA | NE)], "r, r+na+ne"));
         b.push(Block::new(u_long_runs(40), vec![Cfg::new(R), Cfg::new(R | W), Cfg::new(0)], "r, r+w, {}"));
         b.push(Block::new(u_corpus("U_longstr", verif_seed() + 7, 4_000, &["a", "b", "c"], (1, 1), (40, 90)), vec![Cfg::new(R)], "r (corpus of long single strings)"));
@@ -104,6 +106,8 @@ pub fn blocks(thorough: bool) -> Vec<Block> {
         b.push(Block::new(u_kind_pairs(2, 2, true), k2.clone(), "Lambda<=2 (no u,c)"));
         b.push(Block::new(u_kind_pairs(3, 1, false), k2.clone(), "Lambda<=2 (no u,c)"));
         b.push(Block::new(u_runs(), k3.clone(), "Lambda<=3 (no u,c)"));
+        b.push(Block::new(u_many(150), k1.clone(), "Lambda<=1 (no u,c)"));
+        b.push(Block::new(u_kind_triples(), k2.clone(), "Lambda<=2 (no u,c)"));
     }
     b
 }
